@@ -12,7 +12,13 @@ import (
 	"time"
 )
 
-const verifRoot = "/verif"
+// verifRoot is /verif; VERIF_ROOT points an isolated copy (scripts/run-mutant.sh) at itself.
+var verifRoot = func() string {
+	if r := os.Getenv("VERIF_ROOT"); r != "" {
+		return r
+	}
+	return "/verif"
+}()
 
 // Evidence mirrors /root/.vp/EVIDENCE.schema.json.
 type Evidence struct {
